@@ -51,6 +51,8 @@ type reqSpec struct {
 	Key        string
 	IK         string
 	DryRun     bool
+	// Cancellable: the request runs with a context that an extra thread cancels at any moment
+	Cancellable bool
 }
 
 type reqResult struct {
@@ -217,10 +219,23 @@ func runWorld(spec *worldSpec, r *explore.Replayer) *worldRun {
 			panic(err)
 		}
 		s.Spawn("runner", true, func() { cmd.Run(ctx) })
+		var cancels []context.CancelFunc
 		for i := range reqs {
 			res := w.exec(cmd, ctx, &reqs[i], gen)
-			s.Spawn(reqs[i].Name, false, func() { runRequest(w, cmd, ctx, res) })
+			rctx := ctx
+			if reqs[i].Cancellable {
+				var cancel context.CancelFunc
+				rctx, cancel = context.WithCancel(ctx)
+				cancels = append(cancels, cancel)
+				s.Spawn("cancel-"+reqs[i].Name, false, func() { cancel() })
+			}
+			s.Spawn(reqs[i].Name, false, func() { runRequest(w, cmd, rctx, res) })
 		}
+		defer func() {
+			for _, c := range cancels {
+				c()
+			}
+		}()
 		reason := s.Run()
 		if reason == verifrt.Deadlock {
 			w.Pending = s.PendingDescs()
@@ -310,6 +325,9 @@ func worldScenario(prop string, spec worldSpec, oracles ...oracle) *explore.Scen
 
 // chainOracle (C05): ids 0,1,2.. in arrival order, recomputed hash chain, tx ids +1 in log order.
 func chainOracle(w *worldRun) (string, string) {
+	if len(w.Store.Rejected) > 0 {
+		return fmt.Sprintf("the engine tried to persist an entry whose id is already taken (%s): ids are not continued from the persisted head [%s | %s]", w.Store.Rejected[0], w.label(), w.digest()), "chain-duplicate-id"
+	}
 	logs := w.Store.Snapshot()
 	var prev *ledger.ChainedLog
 	nextTx := int64(-1)
